@@ -47,12 +47,16 @@ def _driver_for(tier, rules):
         if sp is None:
             return {"rule": r["id"], "path": r["path"], "sig": r["sig"], "space": None, "p": {}}
         p = {}
+        ndev = 0
         for d in sp.dims(tier, r):
             vals = d.values(tier)
             if d.cost == 0:
                 p[d.name] = ch.all(f"{sp.name}.{d.name}", vals)
             else:
                 p[d.name] = ch.choose(f"{sp.name}.{d.name}", vals)
+                ndev += p[d.name] != vals[0]
+        if sp.max_dev.get(tier) is not None and ndev > sp.max_dev[tier]:
+            raise explore.Prune()
         if sp.prune is not None and sp.prune(p, r):
             raise explore.Prune()
         return {"rule": r["id"], "path": r["path"], "sig": r["sig"], "space": sp.name, "p": p}
@@ -108,7 +112,8 @@ def _eval(item_rule, path, spname, p, sig=""):
                       "skip_detail": f"{type(e).__name__}: {str(e)[:200]}"}, None)
         _MEMO[key] = out
         return out
-    res = core.judge(rule, model, mb.feeds())
+    spec = sp.spec(dict(p), {"id": item_rule, "path": path, "sig": sig}) if sp.spec is not None else None
+    res = core.judge(rule, model, mb.feeds(), spec=spec, accum=sp.accum)
     kinds = [k for k, _ in res["problems"]]
     primary = next((k for k in _PRIORITY if k in kinds), None)
     show = None
@@ -126,8 +131,14 @@ def _fmt(v):
     return json.dumps(v, separators=(",", ":")) if not isinstance(v, str) else v
 
 
+def _kinds_of(res):
+    return {k for k, _ in res["problems"]}
+
+
 def _minimise(item, kind):
-    """Greedy: reset every non-default parameter to the space default while the same kind of violation remains."""
+    """Greedy: reset every non-default parameter to the space default while a violation of this kind remains.
+
+    -> (minimal params, primary kind of the minimal case, class string)."""
     sp = spaces.SPACES[item["space"]]
     r = _rule_desc(item)
     dims = sp.dims(_TIER, r)
@@ -143,12 +154,21 @@ def _minimise(item, kind):
             q[d.name] = dv
             if sp.prune is not None and sp.prune(q, r):
                 continue
-            k2, _, _ = _eval(item["rule"], item["path"], item["space"], q, item.get("sig", ""))
-            if k2 == kind:
+            _, res2, _ = _eval(item["rule"], item["path"], item["space"], q, item.get("sig", ""))
+            if kind in _kinds_of(res2):
                 p = q
                 changed = True
-    nd = [f"{d.name}={_fmt(p[d.name])}" for d in dims if p.get(d.name) != d.values(_TIER)[0]]
-    return p, ",".join(nd) or "default"
+    kmin, _, _ = _eval(item["rule"], item["path"], item["space"], p, item.get("sig", ""))
+    nd = collections.OrderedDict((d.name, p[d.name]) for d in dims if p.get(d.name) != d.values(_TIER)[0])
+    # an operand that is only a default (initializer that is also an input) or a runtime input was treated as a
+    # constant: that alone is the distinguishing class, whichever operand and values made it visible
+    ck = str(nd.get("ck", ""))
+    if ck.startswith("init_input@") or ck.startswith("input@"):
+        return p, kmin or kind, "ck=" + ck.split("@")[0]
+    klass = sp.klass(nd, p, r) if sp.klass is not None else None
+    if klass is None:
+        klass = ",".join(f"{k}={_fmt(v)}" for k, v in nd.items()) or "default"
+    return p, kmin or kind, klass
 
 
 def execute(item):
@@ -172,16 +192,20 @@ def execute(item):
         for k, v in res["skipped"].items():
             counts["feeds_skipped_" + k] = v
     counts["feeds_compared"] = res["admitted"]
+    if res.get("within_accum_roundoff"):
+        counts["feeds_equal_only_under_accumulation_tolerance"] = res["within_accum_roundoff"]
+    if res.get("admitted_by_spec"):
+        counts["feeds_admitted_by_numpy_spec"] = res["admitted_by_spec"]
     out["counts"] = counts
     if primary is None:
         out["status"] = "ok"
         if show:
             out["show"] = show
         return out
-    pmin, klass = _minimise(item, primary)
+    pmin, primary_min, klass = _minimise(item, primary)
     detail = next(d for k, d in res["problems"] if k == primary)
     out["status"] = "viol"
-    out["viols"] = [{"key": f"C05|{primary}|{rid}|{klass}",
+    out["viols"] = [{"key": f"C05|{primary_min}|{rid}|{klass}",
                      "detail": {"params": item["p"], "minimal_params": pmin, "all_kinds": sorted({k for k, _ in res["problems"]}),
                                 "problem": detail, "near_miss": near}}]
     out["show"] = show
